@@ -733,6 +733,19 @@ def gen_cross_task():
     return out
 
 
+def dup_pretask():
+    """C13: the same lightweight task is attached twice to one node (add_pretasks_from of two holders sharing it)"""
+    out = [
+        G("dup-pretask-root", N("LW", k=1), N("TaskNoGen", pre=[0, 0])),
+        G("dup-pretask-nested", N("LW", k=1), N("Leaf", i=1, pre=[0, 0]), N("TaskNoGen", refs={"a": 1})),
+        G("dup-pretask-two-kinds", N("LW", k=1), N("LW", k=2), N("TaskNoGen", pre=[0, 1, 0, 1])),
+        G("dup-pretask-then-shared", N("LW", k=1), N("Leaf", i=1, pre=[0, 0]), N("TaskNoGen", refs={"a": 1}, pre=[0])),
+    ]
+    for s in out:
+        assert well_formed(s), s["label"]
+    return out
+
+
 def dual_use():
     """C13: one lightweight task object is pre-task and init task at once"""
     out = [
@@ -1031,7 +1044,7 @@ def _c13(tier, seed, ses):
 
     rng = random.Random(seed)
     rep = Report()
-    specs = handcrafted() + gen_positions() + dual_use() + list(enum_specs(tier, rng, 200, 2500))
+    specs = handcrafted() + gen_positions() + dual_use() + dup_pretask() + list(enum_specs(tier, rng, 200, 2500))
     for spec in specs:
         rep.distinct.add(spec_key(spec))
         is_task = spec["nodes"][-1]["cls"] in TASKS
